@@ -200,6 +200,39 @@ fn monitor_exec(out : &mut Out, sc : &Scenario, inv : &Invocation, replay : &Jso
     }
 }
 
+
+/// the schedule's trace in the vocabulary of coq/Model/Protocol.v (worker = task - 1; the work step is the
+/// execute_command call, or — for workers that run no command — placed just before their first send / finish)
+pub fn protocol_events(inv : &Invocation) -> String
+{
+    let mut worked : BTreeSet<usize> = BTreeSet::new();
+    let mut out : Vec<String> = vec![];
+    for e in inv.trace.iter()
+    {
+        let parts : Vec<&str> = e.what.split(' ').collect();
+        if e.task == 0
+        {
+            match parts[0]
+            {
+                "spawn" => out.push(format!("(spawn #{})", parts[1].parse::<usize>().unwrap_or(1) - 1)),
+                "join" => out.push(format!("(join #{})", parts[1].parse::<usize>().unwrap_or(1) - 1)),
+                _ => {},
+            }
+            continue;
+        }
+        let w = e.task - 1;
+        match parts[0]
+        {
+            "recv" => out.push(format!("(recv #{} #{})", w, parts[1])),
+            "exec" => { if worked.insert(w) { out.push(format!("(work #{})", w)); } },
+            "send" => { if worked.insert(w) { out.push(format!("(work #{})", w)); } out.push(format!("(send #{} #{})", w, parts[1])); },
+            "finish" => { if worked.insert(w) { out.push(format!("(work #{})", w)); } out.push(format!("(finish #{})", w)); },
+            _ => {},
+        }
+    }
+    format!("(l {})", out.join(" "))
+}
+
 fn explore(out : &mut Out, rng : &mut Rng, p : &Prepared, op : &Op, n_random : usize, n_pct : usize, dfs_budget : usize)
 {
     // serial reference
@@ -230,6 +263,14 @@ fn explore(out : &mut Out, rng : &mut Rng, p : &Prepared, op : &Op, n_random : u
         let inv = d.invoke(op, policy);
         let replay = replay_json("sched", &p.prep, op, &name, &inv.choices);
         out.count("schedules");
+        // R-trace: every behaviour the implementation shows must be a behaviour of the protocol model
+        if !matches!(inv.verdict, Verdict::Fatal(_))
+        {
+            let (goal, is_clean) = match op { Op::Build(g) => (g.clone(), false), Op::Clean(g) => (g.clone(), true), _ => (None, false) };
+            let case = sexp::paren(&["trace".to_string(), sexp::hex(p.scenario.render().as_bytes()), sexp::option(goal.map(|g| sexp::hex(g.as_bytes()))), sexp::boolean(is_clean), protocol_events(&inv)]);
+            out.case(case, "(ok finished)".to_string(), true);
+            out.count("traces-validated");
+        }
         // distinctness of schedules: by the sequence of (task, event) pairs
         let mut h : u64 = 0xcbf29ce484222325;
         for e in inv.trace.iter() { for b in format!("{}:{};", e.task, e.what).bytes() { h ^= b as u64; h = h.wrapping_mul(0x100000001b3); } }
